@@ -93,7 +93,11 @@ def run10 (c obs : String) : String × String × Bool :=
     -- the order among rows with equal keys is not specified: compare keys in order, rows as a multiset
     let (want, keysWant) : List String × List Int := match kind with
       | "sort" => let s := sortKV (ups.headD []); (s.map showKV, s.map (·.1))
-      | "merge" => let s := mergeAll ups; (s.map showKV, s.map (·.1))
+      | "merge" =>
+        -- the merge reader machine (BS.Merge.mrun, first least cursor) on sorted streams; the list merge otherwise
+        let sorted := ups.all fun s => (s.zip (s.drop 1)).all fun (a, b) => a.1 ≤ b.1
+        let s := if sorted then BS.Merge.mrun BS.Merge.leftmost ups.flatten.length ups else mergeAll ups
+        (s.map showKV, s.map (·.1))
       | _ =>
         -- the reduce-merge machine (BS.Merge) on strictly sorted streams, the keyed fold otherwise (equal: run_spec)
         let strict := ups.all fun s => (s.zip (s.drop 1)).all fun (a, b) => a.1 < b.1
